@@ -373,8 +373,9 @@ def run(ctx, col: Collector):
                  ('pydbml.renderer.dbml.default.table_group', 'render_table_group', 'TableGroup ', 'parse_table_group'),
                  ('pydbml.renderer.dbml.default.project', 'render_project', 'Project ', 'parse_project'),
                  ('pydbml.renderer.dbml.default.sticky_note', 'render_sticky_note', 'Note ', 'parse_sticky_note')]
+        from .common import expanded as _exp
         for mod, fn, kw, action in elems:
-            fi = idx.func(mod, fn)
+            fi = _exp(ctx, mod, fn)          # with its helpers in place (a header helper, a comment wrapper)
             consts = [c.value for x in ast.walk(fi.node) for c in ([x] if isinstance(x, ast.Constant) else []) if isinstance(c.value, str)]
             first = [c for c in consts if c.strip() and c.strip()[0].isalpha()]
             gs = gm.nodes_with_action(action)
